@@ -18,6 +18,8 @@ FRESH_CALLS = {"list", "dict", "set", "bytearray", "tuple", "sorted", "reversed"
 IMMUTABLE_ANN = {"int", "bytes", "bool", "str", "float", "None", "T_FQ", "T_FQP", "T_FQ2", "T_FQ12", "IntOrFQ",
                  "FQ", "FQ2", "FQ12", "FQP", "BLSPubkey", "BLSSignature", "HASH", "Any", "Optimized_Field", "Field",
                  "G1Compressed"}
+NUMERIC_ANN = {"int", "bool", "float", "T_FQ", "T_FQP", "T_FQ2", "T_FQ12", "IntOrFQ", "FQ", "FQ2", "FQ12", "FQP",
+               "Optimized_Field", "Field", "G1Compressed"}
 INPLACE_DUNDERS = {"__iadd__", "__isub__", "__imul__", "__itruediv__", "__ifloordiv__", "__imod__", "__ipow__",
                    "__ilshift__", "__irshift__", "__iand__", "__ior__", "__ixor__", "__imatmul__", "__setattr__",
                    "__setitem__", "__delitem__", "__delattr__"}
@@ -149,6 +151,13 @@ class FuncEffects:
                 s = ast.unparse(ann).strip('"\'')
                 if s in IMMUTABLE_ANN:
                     return True
+        return False
+
+    def _param_numeric(self, name):
+        for a in self.f.node.args.posonlyargs + self.f.node.args.args:
+            if a.arg == name and a.annotation is not None:
+                s = ast.unparse(a.annotation).strip('"\'')
+                return s in NUMERIC_ANN
         return False
 
     def origin_of_expr(self, e, seen=()):
@@ -351,6 +360,11 @@ class Effects:
                         self._note_param_mutation(fe, tt.value, o)
                     elif isinstance(tt, ast.Name) and kind == "augstore":
                         o = fe.origin_of_name(tt.id)
+                        if o == IMMUT and tt.id in fe.params and not fe._param_numeric(tt.id) \
+                                and not any(k != "aug" for k, _ in fe.assigns.get(tt.id, [])):
+                            # `param += x` rebinds for bytes/str/tuple but extends a bytearray/list argument in place; annotations
+                            # are not enforced and the byte-string parameters of this package accept bytearray
+                            o = PARAM
                         # rebinding for immutable values; in-place for lists & co
                         self.sites.append(Site(f, node, "aug-name", tt.id, o))
                         self._note_param_mutation(fe, tt, o)
